@@ -33,6 +33,9 @@ ASSUMPTIONS = [
     "library's body position (validated by C18), the angle formulas are the oracle's",
     "bplane: S not within 1e-3 rad of the frame's z axis",
     "multi-revolution and hyperbolic Lambert transfers are outside the quantifier",
+    "also varied: time-scale labels of the dates (Lambert: each end its own label; LTAN; beta: orbit and other spacecraft), "
+    "dates next to UTC midnight and the turn of the year, beta for an orbit about the Moon (lunar frame of "
+    "env.solarsystem), sso with a typed as int / numpy scalars, Walker triples as numpy integers",
     "bplane, sso (J2 drift) and beta: in half of the cases the orbit object has a past - created with another semi-major "
     "axis or velocity, consulted through .infos (n, kep, energy, ...), copied, then set in place to the final numbers "
     "(obj.a = ..., obj[3:] = ...); the oracles are evaluated on the final numbers only",
@@ -88,6 +91,41 @@ def mkdate(us):
     from beyond.dates import Date, timedelta
 
     return Date(2000, 1, 1) + timedelta(microseconds=us)
+
+
+SCALES = ["UTC", "UTC", "UTC", "TT", "TAI", "GPS", "UT1", "TDB"]
+
+
+def relabel(date, scale):
+    """same instant under another time-scale label"""
+    if scale is None or date.scale.name == scale:
+        return date
+    return date.change_scale(scale)
+
+
+@st.composite
+def instants_us(draw, lo_year, hi_year):
+    """microseconds from 2000-01-01: anywhere in [lo_year, hi_year), or within 90 s of a UTC midnight, or of the turn
+    of a year (day 366 of leap years included)"""
+    import datetime as _dt
+
+    k = draw(st.integers(0, 9))
+    day = 86400 * 10**6
+    lo = (_dt.date(lo_year, 1, 1) - _dt.date(2000, 1, 1)).days
+    hi = (_dt.date(hi_year, 1, 1) - _dt.date(2000, 1, 1)).days
+    if k < 6:
+        return draw(go.uniform_int(lo * day, hi * day))
+    off = int(draw(go.uniform(-90.0, 90.0)) * 1e6)
+    if k < 9:
+        return draw(go.uniform_int(lo, hi)) * day + off
+    y = draw(st.integers(lo_year + 1, hi_year - 1))
+    return (_dt.date(y, 1, 1) - _dt.date(2000, 1, 1)).days * day + off
+
+
+def date_classes(t_us, scale):
+    day = 86400 * 10**6
+    off = (t_us + day // 2) % day - day // 2
+    return [f"scale:{scale}"] + (["date:utc-midnight"] if abs(off) <= 90 * 10**6 else [])
 
 
 def unit(v):
@@ -189,7 +227,7 @@ def lambert_case(draw):
         frac = draw(fu(0.05, 0.9))
     case = dict(body=body, a=rp / (1 - e), e=e, i=i, raan=draw(fu(0, TWO_PI - 1e-9)),
                 argp=draw(fu(0, TWO_PI - 1e-9)), M0=draw(fu(0, TWO_PI - 1e-9)), frac=frac,
-                t0=draw(iu(0, 20 * 365 * 86400 * 10**6)),
+                t0=draw(instants_us(2000, 2020)), scale0=draw(st.sampled_from(SCALES)), scale1=draw(st.sampled_from(SCALES)),
                 form0=draw(st.sampled_from(["cartesian", "cartesian", "keplerian", "keplerian_circular"])),
                 form1=draw(st.sampled_from(["cartesian", "cartesian", "keplerian_mean", "equinoctial"])),
                 frame1="same", orbit=draw(st.booleans()))
@@ -216,9 +254,12 @@ def check_lambert(case):
     c1 = tb.kep2cart(a, e, i, case["raan"], case["argp"], nu1, mu)
     n = math.sqrt(mu / a**3)
     tof = TWO_PI * case["frac"] / n
-    d0 = mkdate(case["t0"])
-    d1 = d0 + timedelta(seconds=tof)
-    dur = (d1 - d0).total_seconds()  # what the library will use (microsecond resolution)
+    u0 = mkdate(case["t0"])
+    u1 = u0 + timedelta(seconds=tof)
+    dur = (u1 - u0).total_seconds()  # the physical transfer time (microsecond resolution), from the UTC-labelled dates
+    # the same two instants under (possibly different) time-scale labels; UT1 / TDB readings are kept to the microsecond
+    d0 = relabel(u0, case.get("scale0"))
+    d1 = relabel(u1, case.get("scale1"))
     frame = frame_for(case["body"])
     prograde = i < math.pi / 2
 
@@ -300,6 +341,10 @@ def check_lambert(case):
            f"body:{case['body']}"]
     if case["frame1"] != "same":
         cls.append("other-frame")
+    cls.append("labels:" + ("same" if case.get("scale0", "UTC") == case.get("scale1", "UTC") else "mixed"))
+    day = 86400 * 10**6
+    if case["t0"] // day != (case["t0"] + int(tof * 1e6)) // day:
+        cls.append("crosses-utc-midnight")
     cls.append("tof<0.05T" if case["frac"] < 0.05 else "tof>=0.05T")
     if e < 0.1:
         cls.append("e<0.1")
@@ -331,7 +376,7 @@ def sso_case(draw):
     # (cos i = -1); phys: lower bound = perigee 150 km above the surface when such solutions exist
     return dict(e=e, u=draw(fu(0.0, 1.0)), phys=draw(st.integers(0, 9)) < 7, dt=draw(fu(3600.0, 20 * 86400.0)),
                 raan=draw(fu(0, TWO_PI - 1e-9)), argp=draw(fu(0, TWO_PI - 1e-9)), M=draw(fu(0, TWO_PI - 1e-9)),
-                past=draw(detours()))
+                past=draw(detours()), num=draw(st.sampled_from(["float", "float", "numpy", "int_a"])))
 
 
 def check_sso(case):
@@ -348,6 +393,11 @@ def check_sso(case):
     if case["phys"] and (Earth.r + 150e3) / (1 - e) < 0.95 * a_max:
         a_lo = (Earth.r + 150e3) / (1 - e)
     a = a_lo + (0.9999 * a_max - a_lo) * case["u"]
+    num = case.get("num", "float")
+    if num == "int_a":
+        a = int(a)                      # semi-major axis typed as a whole number of metres
+    elif num == "numpy":
+        a, e = np.float64(a), np.float64(e)
     parts = {}
 
     i = float(sso(a=a, e=e))
@@ -418,7 +468,7 @@ def check_sso(case):
         cls.append("perigee-below-surface")
     if i > math.radians(150):
         cls.append("i>150deg")
-    return dict(nt=True, cls=cls + past_classes(past), ratio=max(parts.values()), parts=parts)
+    return dict(nt=True, cls=cls + past_classes(past) + [f"num:{num}"], ratio=max(parts.values()), parts=parts)
 
 
 # ------------------------------------------------------------------ LTAN <-> RAAN
@@ -443,7 +493,7 @@ def wrap_day(x):
 
 @st.composite
 def ltan_case(draw):
-    return dict(t=draw(iu(-10 * 365 * 86400 * 10**6, 30 * 365 * 86400 * 10**6)),
+    return dict(t=draw(instants_us(1990, 2030)), scale=draw(st.sampled_from(SCALES)),
                 raan=draw(fu(0, TWO_PI - 1e-9)), ltan=draw(fu(0, 86400 - 1e-6)),
                 d=draw(fu(-TWO_PI, TWO_PI)), type=draw(st.sampled_from(["mean", "true"])),
                 wind=draw(st.sampled_from([0, 0, 0, -1, 1])))
@@ -452,15 +502,16 @@ def ltan_case(draw):
 def check_ltan(case):
     from beyond.utils.ltan import ltan2raan, raan2ltan
 
-    date = mkdate(case["t"])
+    date = mkdate(case["t"])                       # oracle side: UTC label
+    ldate = relabel(date, case.get("scale"))       # what the library gets: same instant, drawn label
     typ = case["type"]
     raan, ltan = case["raan"], case["ltan"]
     worst = 0.0
     ATOL = 1e-9  # rad
     TTOL = ATOL * 43200 / math.pi
 
-    lt = float(raan2ltan(date, raan + case["wind"] * TWO_PI, typ))
-    ra = float(ltan2raan(date, ltan + case["wind"] * 86400, typ))
+    lt = float(raan2ltan(ldate, raan + case["wind"] * TWO_PI, typ))
+    ra = float(ltan2raan(ldate, ltan + case["wind"] * 86400, typ))
     if not (math.isfinite(lt) and math.isfinite(ra)):
         raise Violation("ltan-nonfinite", f"raan2ltan = {lt}, ltan2raan = {ra}")
     if not 0 <= lt < 86400:
@@ -468,18 +519,18 @@ def check_ltan(case):
     if not 0 <= ra < TWO_PI:
         raise Violation("ltan-range", f"ltan2raan = {ra} rad not in [0, 2 pi)")
     # inverses
-    back = float(ltan2raan(date, lt, typ))
+    back = float(ltan2raan(ldate, lt, typ))
     d = abs(tb.angdiff(back, raan))
     worst = max(worst, d / ATOL)
     if d > ATOL:
         raise Violation("ltan-inverse", f"ltan2raan(raan2ltan({raan!r})) = {back!r} ({typ})")
-    back = float(raan2ltan(date, ra, typ))
+    back = float(raan2ltan(ldate, ra, typ))
     d = abs(wrap_day(back - ltan))
     worst = max(worst, d / TTOL)
     if d > TTOL:
         raise Violation("ltan-inverse", f"raan2ltan(ltan2raan({ltan!r})) = {back!r} ({typ})")
     # one turn of the node = one day of local time, same sense
-    lt2 = float(raan2ltan(date, raan + case["d"], typ))
+    lt2 = float(raan2ltan(ldate, raan + case["d"], typ))
     d = abs(wrap_day(lt2 - lt - 86400 * case["d"] / TWO_PI))
     worst = max(worst, d / TTOL)
     if d > TTOL:
@@ -507,14 +558,14 @@ def check_ltan(case):
     if d > tol * math.pi / 43200:
         raise Violation("ltan-definition", f"{typ} LTAN {ltan!r} s at {date} gives raan {ra!r}, definition {want!r}")
     # mean and true differ by the equation of time (|EoT| < 16 min 33 s; 2 s allowance for the models)
-    other = float(raan2ltan(date, raan + case["wind"] * TWO_PI, "true" if typ == "mean" else "mean"))
+    other = float(raan2ltan(ldate, raan + case["wind"] * TWO_PI, "true" if typ == "mean" else "mean"))
     # The library refers the mean sun to the mean equinox of date (GMST) and the node to EME2000:
     # general precession in right ascension, 3.075 s of time per year from J2000, adds to the difference.
     years = case["t"] / (365.25 * 86400e6)
     eot = wrap_day(other - lt) * (1 if typ == "mean" else -1) - 3.075 * years
     if abs(eot) > 1000.0:
         raise Violation("ltan-equation-of-time", f"true - mean LTAN, less precession, is {eot:.3f} s at {date}")
-    return dict(nt=True, cls=[typ, f"wind{case['wind']}"], ratio=worst)
+    return dict(nt=True, cls=[typ, f"wind{case['wind']}"] + date_classes(case["t"], case.get("scale", "UTC")), ratio=worst)
 
 
 # ------------------------------------------------------------------ Walker
@@ -525,7 +576,8 @@ def walker_case(draw):
     p = draw(st.integers(1, 12))
     s = draw(st.integers(1, 12))
     return dict(kind=draw(st.sampled_from(["Star", "Delta"])), p=p, s=s, f=draw(st.integers(0, p - 1)),
-                raan0=draw(st.one_of(st.just(0.0), fu(0, TWO_PI))), default_raan0=draw(st.booleans()))
+                raan0=draw(st.one_of(st.just(0.0), fu(0, TWO_PI))), default_raan0=draw(st.booleans()),
+                ints=draw(st.sampled_from(["python", "python", "numpy"])))
 
 
 def check_walker(case):
@@ -534,11 +586,12 @@ def check_walker(case):
     p, s, ph = case["p"], case["s"], case["f"]
     t = p * s
     cls_ = getattr(constellation, "Walker" + case["kind"])
+    T_, P_, F_ = (np.int64(t), np.int64(p), np.int64(ph)) if case.get("ints") == "numpy" else (t, p, ph)
     if case["default_raan0"]:
-        w = cls_(t, p, ph)
+        w = cls_(T_, P_, F_)
         raan0 = 0.0
     else:
-        w = cls_(t, p, ph, case["raan0"])
+        w = cls_(T_, P_, F_, case["raan0"])
         raan0 = case["raan0"]
     fleet = [(float(a), float(b)) for a, b in w.iter_fleet()]
     if len(fleet) != t:
@@ -574,7 +627,7 @@ def check_walker(case):
         nus = [float(x) for x in w.iter_nu(plane)]
         if len(nus) != s or any(abs(nus[j] - fleet[plane * s + j][1]) > tol * (1 + abs(nus[j])) for j in range(s)):
             raise Violation("walker-iter", "iter_nu disagrees with iter_fleet")
-    return dict(nt=True, cls=[case["kind"], "p=1" if p == 1 else "p>1", "f=0" if ph == 0 else "f>0"], ratio=worst)
+    return dict(nt=True, cls=[case["kind"], "p=1" if p == 1 else "p>1", "f=0" if ph == 0 else "f>0", f"ints:{case.get('ints', 'python')}"], ratio=worst)
 
 
 # ------------------------------------------------------------------ beta
@@ -589,8 +642,11 @@ def beta_case(draw):
     ref = draw(st.sampled_from(["Sun", "Sun", "Moon", "orbit", "orbit", "aligned"]))
     case = dict(el=el, ref=ref, t=draw(iu(0, 30 * 365 * 86400 * 10**6)),
                 form=draw(st.sampled_from(["cartesian", "keplerian", "equinoctial"])), frame="EME2000",
-                past=draw(detours()))
-    if ref in ("Sun", "Moon"):
+                past=draw(detours()), scale=draw(st.sampled_from(SCALES)), ref_scale=draw(st.sampled_from(SCALES)))
+    case["t"] = draw(instants_us(2000, 2030))
+    if ref == "Sun" and draw(st.integers(0, 4)) == 0:
+        case["frame"] = "Moon"
+    elif ref in ("Sun", "Moon"):
         case["frame"] = draw(st.sampled_from(BETA_FRAMES))
     elif ref == "orbit":
         case["ref_el"] = draw(go.elements(hyperbolic=False, emax_ell=0.8))
@@ -611,12 +667,21 @@ def check_beta(case):
     mu = Earth.mu
     el = case["el"]
     cart = tb.kep2cart(el["a"], el["e"], el["i"], el["raan"], el["argp"], el["nu"], mu)
-    date = mkdate(case["t"])
+    date = mkdate(case["t"])                          # oracle side: UTC label
+    ldate = relabel(date, case.get("scale"))          # library side: same instant, drawn label
+    frame_lib = case["frame"]
+    if frame_lib == "Moon":
+        # an orbit about the Moon (same numbers, read in lunar-centred EME2000 axes): the obscuring body is the Moon
+        if "Moon" not in _frames:
+            from beyond.env.solarsystem import get_frame as _ss_frame
+
+            _frames["Moon"] = _ss_frame("Moon")       # one registration per process
+        frame_lib = _frames["Moon"]
     past = case.get("past", dict(mode="fresh"))
     if past["mode"] == "fresh":
-        orb = StateVector(cart, date, "cartesian", case["frame"]).copy(form=case["form"])
+        orb = StateVector(cart, ldate, "cartesian", frame_lib).copy(form=case["form"])
     else:
-        orb = with_past(past, [el["a"], el["e"], el["i"], el["raan"], el["argp"], el["nu"]], date, case["frame"], mu)
+        orb = with_past(past, [el["a"], el["e"], el["i"], el["raan"], el["argp"], el["nu"]], ldate, frame_lib, mu)
         if orb.form.name != case["form"]:
             orb = orb.copy(form=case["form"])
     h = np.cross(cart[:3], cart[3:])
@@ -626,13 +691,19 @@ def check_beta(case):
         from beyond.env.solarsystem import get_body
 
         arg = ref
-        d = np.asarray(get_body(ref).propagate(date).copy(frame=case["frame"], form="cartesian").base, float)[:3]
+        if case["frame"] == "Moon":
+            # direction Moon -> Sun in EME2000 axes, from the two geocentric positions
+            ps = np.asarray(get_body("Sun").propagate(date).copy(frame="EME2000", form="cartesian").base, float)[:3]
+            pm = np.asarray(get_body("Moon").propagate(date).copy(frame="EME2000", form="cartesian").base, float)[:3]
+            d = ps - pm
+        else:
+            d = np.asarray(get_body(ref).propagate(date).copy(frame=case["frame"], form="cartesian").base, float)[:3]
     elif ref == "orbit":
         rel = dict(case["ref_el"])
         rel["i"] = min(max(rel["i"], 0.05), math.pi - 0.05)      # it goes through the Kepler propagator: regular elements
         rel["e"] = max(rel["e"], 1e-3)
         rc = tb.kep2cart(rel["a"], rel["e"], rel["i"], rel["raan"], rel["argp"], rel["nu"], mu)
-        arg = Orbit(rc, date - timedelta(seconds=case["ref_dt"]), "cartesian", "EME2000", "Kepler")
+        arg = Orbit(rc, relabel(date - timedelta(seconds=case["ref_dt"]), case.get("ref_scale")), "cartesian", "EME2000", "Kepler")
         dt = (date - arg.date).total_seconds()
         d = tb.propagate_uv(rc, dt, mu)[:3]
     else:
@@ -656,7 +727,7 @@ def check_beta(case):
                 break
         if rc is None:
             raise RuntimeError("generator: no regular orbit found for the spacecraft on the orbit normal")
-        arg = Orbit(rc, date, "cartesian", "EME2000", "Kepler")
+        arg = Orbit(rc, relabel(date, case.get("ref_scale")), "cartesian", "EME2000", "Kepler")
         d = pos
     with np.errstate(all="ignore"):
         b = float(beta(orb, arg))
@@ -684,7 +755,8 @@ def check_beta(case):
         cls.append("|beta|>89.9deg")
     if el["e"] > 1:
         cls.append("hyperbolic")
-    return dict(nt=True, cls=cls + past_classes(past), ratio=err / tol, parts={ref: err / tol})
+    return dict(nt=True, cls=cls + past_classes(past) + date_classes(case["t"], case.get("scale", "UTC")), ratio=err / tol,
+                parts={ref: err / tol})
 
 
 # ------------------------------------------------------------------ B-plane
